@@ -16,6 +16,7 @@ import PqlModel.Model.Compile
 import PqlModel.Spec.LexOracle
 import PqlModel.Spec.ParseOracle
 import PqlModel.Spec.WalkOracle
+import PqlModel.Spec.CompileOracle
 import Driver.Proto
 open Pql
 
@@ -124,10 +125,22 @@ def runOp (op : String) (fields : List String) (impl : String) : Option Verdict 
     let params ← parseParams ps
     let m := fmtCompile (compile params s)
     -- the model's text is compared with the normalised implementation result
-    pure { model := if m == normCompile impl then impl else m }
+    pure { model := if m == normCompile impl then impl else m, oracle := CompileOracle.clauses s params impl }
+  | "COMPILE2", [ha, hb, ps] => do
+    let a ← Bytes.ofHex ha
+    let b ← Bytes.ofHex hb
+    let params ← parseParams ps
+    let ma := fmtCompile (compile params a)
+    let mb := fmtCompile (compile params b)
+    match impl.splitOn " ;; " with
+    | [ia, ib] =>
+      pure { model := (if ma == normCompile ia then ia else ma) ++ " ;; " ++ (if mb == normCompile ib then ib else mb),
+             oracle := CompileOracle.twinClauses ia ib }
+    | _ => pure { model := ma ++ " ;; " ++ mb, oracle := ["unreadable-result"] }
   | "QUOTE", [which, h] => do
     let s ← Bytes.ofHex h
-    pure { model := Bytes.toHexField (if which == "s" then quoteSQLString s else quoteIdentifier s) }
+    pure { model := Bytes.toHexField (if which == "s" then quoteSQLString s else quoteIdentifier s),
+           oracle := CompileOracle.quoteClauses (which == "s") s impl }
   | "PARSEV", [h] => do
     let s ← Bytes.ofHex h
     pure { model := fmtParse (parse s), oracle := ParseOracle.clauses s impl true }
